@@ -501,10 +501,37 @@ def opcode_schedule(ref_op, P, rnd):
 # one case
 # --------------------------------------------------------------------------
 
+_CORPUS = None
+
+
+def _corpus():
+    "the test/blt files of the tree under test (<= 3 kB), loaded once"
+    global _CORPUS      # pylint: disable=global-statement
+    if _CORPUS is None:
+        try:
+            _CORPUS = gen.load_corpus(get_repo().path, 3072)
+        except Exception:       # pylint: disable=broad-except
+            _CORPUS = []
+    return _CORPUS
+
+
 def make_case(seed, idx, tier):
     "deterministic case idx: (election, options, text, raw bytes, per-case PRNG)"
     rnd = rng(seed, 'intr', idx)
     rule = gen.RULES[idx % len(gen.RULES)]
+    if tier == 'thorough' and idx % 10 == 9:
+        # a file of the package's own test corpus, under the rule its directory names (else the cycled rule)
+        corpus = _corpus()
+        if corpus:
+            name, raw = corpus[(idx // 10) % len(corpus)]
+            sub = name.split('/')[0] if '/' in name else None
+            crule = {'cfer': 'cfer', 'meek': 'meek', 'mpls': 'mpls', 'qpq': 'qpq', 'scotland': 'scotland'}.get(sub, rule)
+            try:
+                text = raw.decode('utf-8-sig')
+                o = gen.gen_options(rnd, rule=crule, n=9)
+                return dict(corpus=name), o, text, raw, rnd
+            except UnicodeDecodeError:
+                pass
     r = rnd.random()
     large = r > (0.94 if tier == 'quick' else 0.85)
     small = (not large) and r < (0.66 if tier == 'quick' else 0.4)
@@ -863,7 +890,7 @@ def minimise(R, seed, viol, tier, budget_tests=60):
         return None
 
     cur_e = dict(e)
-    a = attempt(cur_e, best_o)
+    a = attempt(cur_e, best_o) if 'ballots' in cur_e else None      # corpus cases have no abstract election
     if a:
         best_text, best_raw = a[0], a[1]
         best = dict(a[2][1], idx=idx)
